@@ -1132,6 +1132,15 @@ def run_mutations(ck, bt, cc, hosts, judge, sitekeys, per_kind):
 def site_tables(ck, cat):
     sites = [(s["file"], s["func"], s["fmt"]) for s in gen_c10.extract(common.REPO)]
     skeys = set(sites)
+    # a diagnostic moved to another function of the same file keeps its entry (tools/gen_c10.py:resolve_moved, the same
+    # resolution the generated Lean tables use); its templates must still be rejected with their messages
+    moved = gen_c10.resolve_moved([e["site"] for e in cat["entries"]], sites)
+    for e in cat["entries"]:
+        if e["site"] in moved:
+            e["site"] = moved[e["site"]]
+    ck.moved_sites = ["%s -> %s" % ("|".join(a), "|".join(b)) for a, b in sorted(moved.items())]
+    if moved:
+        ck.notes.append("catalogue entries resolved to a site that moved within its file: %s" % ck.moved_sites)
     ckeys = {e["site"] for e in cat["entries"]}
     uncovered = sorted(skeys - ckeys)
     stale = sorted(ckeys - skeys)
@@ -1252,6 +1261,7 @@ def run(ck):
         "sites_in_source": len(sites), "catalogue_entries": len(cat["entries"]),
         "class0_with_template": cls[0], "class1_unreachable": cls[1], "class2_external": cls[2],
         "uncovered_sites": ["|".join(k) for k in uncovered], "stale_entries": ["|".join(k) for k in stale],
+        "moved_sites": getattr(ck, "moved_sites", []),
         "hosts": len(hosts), "host_lines": [len(h.lines) for h in hosts],
         "positions": dict(sorted(judge.by_pos.items())),
         "rejected_by_site": dict(sorted(judge.by_site.items(), key=lambda kv: -kv[1])),
